@@ -596,3 +596,280 @@ Proof.
   - intros r w Hr. rewrite flatten_sub. apply nodup_filter, (Hv r w Hr).
   - intros k [].
 Qed.
+
+(* ------------------------------------------------------------------ a Condorcet winner is elected at once *)
+Lemma pairwise_cw_winner votes c : wf_votes votes = true -> is_cw (pairwise votes) c -> condorcet_winner (pairwise votes) = [c].
+Proof.
+  intros Hwf Hcw. pose proof Hcw as [Hc _].
+  apply (cw_spec (pairwise votes) (pairwise_nodup votes) (pairwise_nonneg votes Hwf) (pairwise_cands_two votes c Hwf Hc)). exact Hcw.
+Qed.
+
+Theorem cw_benham fx votes c : wf_votes votes = true -> is_cw (pairwise votes) c -> benham fx votes = H_ok [Cand c].
+Proof.
+  intros Hwf Hcw. unfold benham. cbn [benham_loop]. rewrite (pairwise_cw_winner votes c Hwf Hcw). reflexivity.
+Qed.
+
+Lemma firstn_in {X} (l : list X) : forall n x, In x (firstn n l) -> In x l.
+Proof. induction l as [|y l IH]; intros [|n] x H; cbn [firstn] in H; try destruct H as [<-|H]; try (left; reflexivity); try destruct H. right. exact (IH n x H). Qed.
+Lemma firstn_nodup {X} (l : list X) : forall n, NoDup l -> NoDup (firstn n l).
+Proof.
+  induction l as [|x l IH]; intros [|n] H; cbn [firstn]; try constructor.
+  - inversion H as [|? ? Hn Hd]; subst. intros Hx. apply Hn. apply (firstn_in l n). exact Hx.
+  - inversion H; subst. apply IH. assumption.
+Qed.
+Lemma smith_nodup v : NoDup (smith_schwartz v true).
+Proof. destruct (smith_schwartz_closed v true) as (-> & _). apply firstn_nodup, order_nodup. Qed.
+
+Lemma smith_cw votes c : wf_votes votes = true -> is_cw (pairwise votes) c -> smith_schwartz (pairwise votes) true = [c].
+Proof.
+  intros Hwf Hcw. pose proof Hcw as [Hc Hall]. pose proof (pairwise_cands_two votes c Hwf Hc) as H2.
+  destruct (smith_dominating (pairwise votes) H2) as [Hne _].
+  assert (Hincl : incl (smith_schwartz (pairwise votes) true) [c]).
+  { apply (smith_minimal (pairwise votes) (pairwise_nonneg votes Hwf) H2 [c]); [discriminate|].
+    intros a b [<-|[]] Hb Hnb. apply Hall; [exact Hb|]. intros ->. apply Hnb. left. reflexivity. }
+  pose proof (smith_nodup (pairwise votes)) as Hnd.
+  destruct (smith_schwartz (pairwise votes) true) as [|x [|y t]]; [congruence| |].
+  - destruct (Hincl x (or_introl eq_refl)) as [<-|[]]. reflexivity.
+  - destruct (Hincl x (or_introl eq_refl)) as [<-|[]]. destruct (Hincl y (or_intror (or_introl eq_refl))) as [<-|[]].
+    inversion Hnd as [|? ? Hn _]; subst. exfalso. apply Hn. left. reflexivity.
+Qed.
+
+Lemma tideman_tier_unfold fx f round : round <> [] ->
+  tideman_tier fx (S f) round =
+  match smith_schwartz (pairwise round) true with
+  | [w] => inl (Cand w)
+  | sset =>
+      let round1 := subset_votes sset round in
+      match eliminate_one round1 with
+      | None => inr H_index
+      | Some rem =>
+          if fx && has_tie rem then inr H_nie
+          else match rem with
+               | [r] => inl r
+               | _ => tideman_tier fx f (subset_votes (plain rem) round1)
+               end
+      end
+  end.
+Proof. destruct round; [congruence|reflexivity]. Qed.
+
+Lemma qv_in votes r w : In (r, w) votes -> In (r, inject_Z w) (qv votes).
+Proof. intros H. unfold qv. apply in_map_iff. exists (r, w). auto. Qed.
+
+Lemma cands_all_ranked votes x : In x (cands_of votes) -> In x (all_ranked_candidates (qv votes)).
+Proof.
+  intros H. apply cands_of_spec in H. destruct H as (r & w & Hr & Hx). unfold flatten in Hx. apply in_flat_map in Hx.
+  destruct Hx as (it & Hit & Hx). exact (all_ranked_in (qv votes) r (inject_Z w) it x (qv_in votes r w Hr) Hit Hx).
+Qed.
+
+Theorem cw_tideman fx votes c : wf_votes votes = true -> is_cw (pairwise votes) c -> tideman_alt fx votes 1 = H_ok [Cand c].
+Proof.
+  intros Hwf Hcw. pose proof Hcw as [Hc _]. unfold tideman_alt.
+  assert (Hne : votes <> []) by (intros ->; exact Hc).
+  rewrite (tideman_tier_unfold fx _ votes Hne), (smith_cw votes c Hwf Hcw).
+  assert (Hm : cmem c (all_ranked_candidates (qv votes)) = true).
+  { apply cmem_iff, cands_all_ranked, candidates_pairwise_in, Hc. }
+  rewrite Hm. reflexivity.
+Qed.
+
+(* ------------------------------------------------------------------ all_ranked_candidates *)
+Lemma nodup_snoc {X} (l : list X) c : NoDup l -> ~ In c l -> NoDup (l ++ [c]).
+Proof.
+  induction l as [|x l IH]; cbn [app]; intros Hn Hc; [constructor; [intros []|constructor]|].
+  inversion Hn as [|? ? Hx Hl]; subst. constructor.
+  - intros H. apply in_app_or in H. destruct H as [H|[<-|[]]]; [exact (Hx H)|apply Hc; left; reflexivity].
+  - apply IH; [exact Hl|]. intros H. apply Hc. right. exact H.
+Qed.
+Section ARC.
+  Variable votes : list (ballot * Q).
+  Definition ranked_somewhere (x : C) : Prop := exists b w it, In (b, w) votes /\ In it b /\ In x (members it).
+  Definition arc_good (acc : list C) : Prop := NoDup acc /\ forall x, In x acc -> ranked_somewhere x.
+
+  Lemma addall_good l : forall acc, arc_good acc -> (forall x, In x l -> ranked_somewhere x) ->
+    arc_good (fold_left (fun acc c => if cmem c acc then acc else acc ++ [c]) l acc).
+  Proof.
+    induction l as [|c l IH]; intros acc Hg Hl; cbn [fold_left]; [exact Hg|].
+    apply IH; [|intros x Hx; apply Hl; right; exact Hx].
+    destruct (cmem c acc) eqn:E; [exact Hg|]. destruct Hg as [Hn Hr]. split.
+    - apply nodup_snoc; [exact Hn|apply cmem_false, E].
+    - intros x Hx. apply in_app_or in Hx. destruct Hx as [Hx|[<-|[]]]; [apply Hr, Hx|apply Hl; left; reflexivity].
+  Qed.
+
+  Lemma mid_good i (vs : list (ballot * Q)) : incl vs votes -> forall acc, arc_good acc ->
+    arc_good (fold_left (fun acc (bw : ballot * Q) => match nth_error (fst bw) i with
+                 | Some it => fold_left (fun acc c => if cmem c acc then acc else acc ++ [c]) (members it) acc
+                 | None => acc end) vs acc).
+  Proof.
+    induction vs as [|[b w] vs IH]; intros Hi acc Hg; cbn [fold_left]; [exact Hg|].
+    apply IH; [intros y Hy; apply Hi; right; exact Hy|]. cbn [fst].
+    destruct (nth_error b i) as [it|] eqn:E; [|exact Hg]. apply addall_good; [exact Hg|].
+    intros x Hx. exists b, w, it. split; [apply Hi; left; reflexivity|]. split; [apply (nth_error_In _ _ E)|exact Hx].
+  Qed.
+
+  Lemma arc_good_all : arc_good (all_ranked_candidates votes).
+  Proof.
+    unfold all_ranked_candidates. cbv zeta.
+    assert (H : forall idx acc, arc_good acc -> arc_good (fold_left (fun acc i =>
+      fold_left (fun acc (bw : ballot * Q) => match nth_error (fst bw) i with
+                 | Some it => fold_left (fun acc c => if cmem c acc then acc else acc ++ [c]) (members it) acc
+                 | None => acc end) votes acc) idx acc)).
+    { induction idx as [|i idx IH]; intros acc Hg; cbn [fold_left]; [exact Hg|]. apply IH. apply mid_good; [apply incl_refl|exact Hg]. }
+    apply H. split; [constructor|intros x []].
+  Qed.
+End ARC.
+
+Lemma arc_nodup votes : NoDup (all_ranked_candidates (qv votes)).
+Proof. apply (arc_good_all (qv votes)). Qed.
+
+Lemma arc_iff votes x : In x (all_ranked_candidates (qv votes)) <-> In x (cands_of votes).
+Proof.
+  split; [|apply cands_all_ranked]. intros H. apply (proj2 (arc_good_all (qv votes))) in H.
+  destruct H as (b & w & it & Hb & Hit & Hx). apply cands_of_spec. unfold qv in Hb. apply in_map_iff in Hb.
+  destruct Hb as ([b' w'] & [= <- _] & Hb). exists b', w'. split; [exact Hb|]. unfold flatten. apply in_flat_map. exists it. auto.
+Qed.
+
+(* ------------------------------------------------------------------ eliminate_one *)
+Lemma qv_nonneg votes : wf_votes votes = true -> forall b w, In (b, w) (qv votes) -> (0 <= w)%Q.
+Proof.
+  intros Hwf b w H. unfold qv in H. apply in_map_iff in H. destruct H as ([b' w'] & [= <- <-] & H).
+  destruct (proj1 (wf_votes_spec votes) Hwf b' w' H) as [_ Hw]. change 0%Q with (inject_Z 0). rewrite <- Zle_Qle. exact Hw.
+Qed.
+
+Lemma totals_keys votes : wf_votes votes = true ->
+  map fst (some_totals (totals (initial_allocation (qv votes)))) = all_ranked_candidates (qv votes).
+Proof.
+  intros Hwf. change (some_totals (totals (initial_allocation (qv votes)))) with (in_play (initial_allocation (qv votes))).
+  rewrite in_play_keys.
+  assert (Hne : [1%positive] <> []) by discriminate.
+  exact (proj1 (proj2 (proj2 (initial_psc [1%positive] (qv votes) [] Hne (qv_nonneg votes Hwf))))).
+Qed.
+
+Lemma plain_map_cand l : plain (map Cand l) = l.
+Proof. induction l as [|x l IH]; cbn; [reflexivity|]. f_equal. exact IH. Qed.
+Lemma has_tie_app (a b : list (res C)) : has_tie (a ++ b) = has_tie a || has_tie b.
+Proof. unfold has_tie. apply existsb_app. Qed.
+
+Lemma gnb_plain (tot : list (C * Q)) n : NoDup (map fst tot) -> (1 <= n)%nat -> (n < length tot)%nat ->
+  has_tie (get_n_best Qle_bool tot n) = false ->
+  exists R, get_n_best Qle_bool tot n = map Cand R /\ NoDup R /\ incl R (map fst tot) /\ length R = n.
+Proof.
+  intros Hnd H1 Hlt Ht.
+  destruct (get_n_best_spec Qle_bool Qle_bool_total Qle_bool_trans tot n H1) as [_ H]. specialize (H Hlt).
+  destruct H as (above & level & below & thr & Hperm & _ & _ & _ & _ & Hpos & Heq & Htie).
+  destruct (Nat.eq_dec (length above + length level) n) as [E|E].
+  - specialize (Heq E). exists (map fst (above ++ level)). split; [rewrite Heq, map_map; reflexivity|].
+    assert (Hp : Permutation (map fst ((above ++ level) ++ below)) (map fst tot)) by (apply Permutation_map; rewrite <- app_assoc; exact Hperm).
+    rewrite map_app in Hp. split; [|split].
+    + apply (nodup_app_l _ (map fst below)). apply (Permutation_NoDup (Permutation_sym Hp)). exact Hnd.
+    + intros x Hx. apply (Permutation_in _ Hp). apply in_or_app. left. exact Hx.
+    + rewrite map_length, app_length. exact E.
+  - exfalso. assert (Hgt : (n < length above + length level)%nat) by lia. specialize (Htie Hgt). rewrite Htie, has_tie_app in Ht.
+    destruct (n - length above)%nat as [|k] eqn:Ek; [lia|]. cbn [repeat has_tie existsb] in Ht. rewrite orb_true_r in Ht. discriminate.
+Qed.
+
+Lemma elim_spec cur rem : wf_votes cur = true -> eliminate_one cur = Some rem -> has_tie rem = false ->
+  exists R, rem = map Cand R /\ NoDup R /\ incl R (all_ranked_candidates (qv cur)) /\
+            length R = (length (all_ranked_candidates (qv cur)) - 1)%nat.
+Proof.
+  intros Hwf He Ht. unfold eliminate_one in He. pose proof (totals_keys cur Hwf) as Hk.
+  set (K := all_ranked_candidates (qv cur)) in *. set (tot := some_totals (totals (initial_allocation (qv cur)))) in *.
+  destruct (length K) as [|[|m]] eqn:El; [discriminate| |].
+  - injection He as <-. exists []. repeat split; [constructor|intros x []].
+  - injection He as <-.
+    assert (Hlen : length tot = S (S m)) by (rewrite <- El, <- Hk, map_length; reflexivity).
+    destruct (gnb_plain tot (S m)) as (R & E1 & E2 & E3 & E4); [rewrite Hk; apply arc_nodup|lia|lia|exact Ht|].
+    exists R. split; [exact E1|]. split; [exact E2|]. split; [rewrite <- Hk; exact E3|]. rewrite E4. lia.
+Qed.
+
+(* at most one candidate is dropped *)
+Lemma drop_one (R K : list C) x y : NoDup R -> incl R K -> (length R = length K - 1)%nat ->
+  In x K -> In y K -> ~ In x R -> ~ In y R -> x = y.
+Proof.
+  intros Hn Hi Hl Hx Hy Hnx Hny. destruct (Pos.eq_dec x y) as [E|E]; [exact E|exfalso].
+  assert (Hn2 : NoDup (x :: y :: R)).
+  { constructor; [intros [H|H]; [exact (E (eq_sym H))|exact (Hnx H)]|]. constructor; assumption. }
+  assert (Hi2 : incl (x :: y :: R) K) by (intros z [<-|[<-|Hz]]; auto).
+  pose proof (NoDup_incl_length Hn2 Hi2) as H. cbn [length] in H. destruct K; [destruct Hx|]. cbn [length] in *. lia.
+Qed.
+
+(* ------------------------------------------------------------------ Tideman alternative stays inside the Smith set *)
+Lemma smith_in_cands v x : In x (smith_schwartz v true) -> In x (candidates v).
+Proof.
+  destruct (le_lt_dec 2 (length (candidates v))) as [H2|H2]; [apply (smith_subset v H2)|].
+  assert (Hc : complete v = []).
+  { unfold complete. destruct (candidates v) as [|c [|d t]]; [reflexivity| |cbn [length] in H2; lia].
+    cbn [flat_map]. rewrite ceqb_refl. reflexivity. }
+  unfold smith_schwartz. rewrite Hc. cbn. intros [].
+Qed.
+
+Lemma tier_step_in fx T f round w : wf_votes round = true ->
+  tideman_tier fx (S f) round = inl (Cand w) ->
+  (forall x, In x (smith_schwartz (pairwise round) true) -> In x T) ->
+  (forall round', wf_votes round' = true -> (forall x, In x (cands_of round') -> In x T) ->
+                  tideman_tier fx f round' = inl (Cand w) -> In w T) ->
+  In w T.
+Proof.
+  intros Hwf H HS IH.
+  assert (Hne : round <> []) by (intros ->; discriminate H).
+  rewrite (tideman_tier_unfold fx f round Hne) in H.
+  set (sset := smith_schwartz (pairwise round) true) in *.
+  assert (Hcase : (exists s, sset = [s]) \/ (forall s, sset <> [s])).
+  { destruct sset as [|s [|s2 ss]]; [right; intros s; discriminate|left; exists s; reflexivity|right; intros s0; discriminate]. }
+  destruct Hcase as [(s & Es)|Hn].
+  - rewrite Es in H. injection H as <-. apply HS. rewrite Es. left. reflexivity.
+  - set (round1 := subset_votes sset round) in *.
+    assert (H' : match eliminate_one round1 with
+                 | None => inr H_index
+                 | Some rem => if fx && has_tie rem then inr H_nie
+                               else match rem with [r] => inl r | _ => tideman_tier fx f (subset_votes (plain rem) round1) end
+                 end = @inl (res C) hres (Cand w)).
+    { destruct sset as [|s [|s2 ss]]; [exact H|exfalso; apply (Hn s); reflexivity|exact H]. }
+    clear H. pose proof (subset_wf sset round Hwf) as Hwf1. fold round1 in Hwf1.
+    assert (HT1 : forall x, In x (cands_of round1) -> In x T).
+    { intros x Hx. apply subset_cands in Hx. apply HS. apply Hx. }
+    destruct (eliminate_one round1) as [rem|] eqn:Ee; [|discriminate].
+    destruct (fx && has_tie rem); [discriminate|].
+    destruct rem as [|r [|r2 rr]].
+    + refine (IH _ (subset_wf _ _ Hwf1) _ H'). intros x Hx. apply subset_cands in Hx. apply HT1, Hx.
+    + injection H' as ->. destruct (elim_spec round1 [Cand w] Hwf1 Ee eq_refl) as (R & E1 & _ & E3 & _).
+      destruct R as [|x [|y R]]; try discriminate. injection E1 as <-. apply HT1. apply arc_iff. apply E3. left. reflexivity.
+    + refine (IH _ (subset_wf _ _ Hwf1) _ H'). intros x Hx. apply subset_cands in Hx. apply HT1, Hx.
+Qed.
+
+Lemma tier_in fx T : forall fuel round w, wf_votes round = true -> (forall x, In x (cands_of round) -> In x T) ->
+  tideman_tier fx fuel round = inl (Cand w) -> In w T.
+Proof.
+  induction fuel as [|f IH]; intros round w Hwf HT H.
+  - destruct round; discriminate H.
+  - apply (tier_step_in fx T f round w Hwf H).
+    + intros x Hx. apply HT. apply candidates_pairwise_in. apply smith_in_cands. exact Hx.
+    + intros round' Hwf' HT' H'. exact (IH round' w Hwf' HT' H').
+Qed.
+
+Lemma tier_not_ok fx : forall fuel round r, tideman_tier fx fuel round <> inr (H_ok r).
+Proof.
+  induction fuel as [|f IH]; intros round r; [destruct round; discriminate|].
+  destruct round as [|bw t]; [discriminate|]. rewrite tideman_tier_unfold by discriminate.
+  set (round := bw :: t) in *. clearbody round.
+  assert (Hgen : forall sset, match eliminate_one (subset_votes sset round) with
+                 | None => inr H_index
+                 | Some rem => if fx && has_tie rem then inr H_nie
+                               else match rem with [r0] => inl r0 | _ => tideman_tier fx f (subset_votes (plain rem) (subset_votes sset round)) end
+                 end <> inr (H_ok r)).
+  { intros sset. destruct (eliminate_one (subset_votes sset round)) as [rem|]; [|discriminate].
+    destruct (fx && has_tie rem); [discriminate|]. destruct rem as [|r0 [|r1 rr]]; [apply IH|discriminate|apply IH]. }
+  destruct (smith_schwartz (pairwise round) true) as [|s [|s2 ss]]; [apply Hgen|discriminate|apply Hgen].
+Qed.
+
+Theorem smith_tideman fx votes n c : wf_votes votes = true -> tideman_alt fx votes n = H_ok [Cand c] ->
+  In c (smith_schwartz (pairwise votes) true).
+Proof.
+  intros Hwf H. unfold tideman_alt in H.
+  destruct (tideman_tier fx (S (S (length (all_ranked_candidates (qv votes))))) votes) as [[w|l]|e] eqn:Et.
+  - assert (E : w = c).
+    { destruct (cmem w (all_ranked_candidates (qv votes))); [|discriminate].
+      destruct (Nat.eqb 1 n || forallb (fun c0 => ceqb c0 w) (all_ranked_candidates (qv votes))); [|discriminate]. congruence. }
+    subst w. apply (tier_step_in fx _ _ votes c Hwf Et); [auto|].
+    intros round' Hwf' HT' H'. exact (tier_in fx _ _ round' c Hwf' HT' H').
+  - discriminate.
+  - subst e. destruct (tier_not_ok fx _ _ _ Et).
+Qed.
